@@ -272,7 +272,14 @@ impl Cqueue {
                     #[cfg(may_verif)]
                     crate::verif::pt("cq.poll.load_cnt", crate::verif::addr(self), 0, 0);
                     if self.cnt.load(Ordering::Relaxed) == 0 {
-                        return Err(PollError::Finished);
+                        // every select coroutine has ended, and each pushed its Done event
+                        // before it decremented the count: consume what is left first, else
+                        // that coroutine is never joined (its panic is lost and it may still
+                        // be running when the cqueue is dropped)
+                        match self.ev_queue.pop() {
+                            Some(mut ev) => run_ev!(ev),
+                            None => return Err(PollError::Finished),
+                        }
                     }
                 }
             }
